@@ -26,6 +26,10 @@ type Peering struct {
 	linksByLabel map[m.SwitchLabel]Link
 	linksLock    sync.RWMutex
 
+	// linkSetups holds the routers with which a link is currently being set up.
+	linkSetups     map[netip.Addr]struct{}
+	linkSetupsLock sync.Mutex
+
 	listeners     map[string]Listener
 	listenersLock sync.RWMutex
 
@@ -57,6 +61,7 @@ func New(instance instance, frameHandler chan frame.Frame) *Peering {
 		triggerPeering: make(chan struct{}, 1),
 		links:          make(map[netip.Addr]Link),
 		linksByLabel:   make(map[m.SwitchLabel]Link),
+		linkSetups:     make(map[netip.Addr]struct{}),
 		listeners:      make(map[string]Listener),
 		protocols:      make(map[string]Protocol),
 	}
@@ -145,6 +150,27 @@ func (p *Peering) GetLinks() []Link {
 	})
 
 	return list
+}
+
+// startLinkSetup marks that a link with the given router is being set up.
+// It returns false if there already is a link setup with that router in progress.
+func (p *Peering) startLinkSetup(ip netip.Addr) (ok bool) {
+	p.linkSetupsLock.Lock()
+	defer p.linkSetupsLock.Unlock()
+
+	if _, inProgress := p.linkSetups[ip]; inProgress {
+		return false
+	}
+	p.linkSetups[ip] = struct{}{}
+	return true
+}
+
+// finishLinkSetup marks that the link setup with the given router has ended.
+func (p *Peering) finishLinkSetup(ip netip.Addr) {
+	p.linkSetupsLock.Lock()
+	defer p.linkSetupsLock.Unlock()
+
+	delete(p.linkSetups, ip)
 }
 
 // AddLink adds the link to the peering list.
